@@ -494,3 +494,17 @@ Theorem covsearch_unbounded_terminates :
     length cands <= k -> k < f1 -> k < f2 ->
     covsearch_steps f1 cands winners n = covsearch_steps f2 cands winners n.
 Proof. exact covsearch_steps_fuel. Qed.
+
+(* Round 4.  least_number_of_transformations, TRANSITS: for all transit statement lists a (model) and b (space) and
+   whatever element of `tuple(set(...))` Python takes as rhs[key][0], the returned step ('TRANSITS', c, depot) leads
+   INTO the space: every candidate count c is offered by b together with that depot and is not a transit feature of a.
+   With lnt_mode_category and lnt_peripherals_drug_only this makes the returned set sufficient in all five categories
+   (lnt_is_smallest gives minimality). *)
+Theorem lnt_transits_targets_offered :
+  forall (a b : list pstmt) (items : list lnt_item),
+    forallb pstmt_ok a = true -> forallb pstmt_ok b = true ->
+    lnt_transits a b = Ok items ->
+    forall i, In i items ->
+      exists d cs, i = LTransits d cs /\ cs <> [] /\
+        forall c, In c cs -> In (c, d) (E_pairs [] w_depot b) /\ ~ In (c, d) (E_pairs [] w_depot a).
+Proof. exact lnt_transits_targets. Qed.
